@@ -33,6 +33,12 @@ def owsim_half(ctx):
     os.environ.update(rc_env)
     try:
         s = owsim.run_engine(ctx, cases, binary, ["-sample", str(n), "-options", "basic+noout", "-workers", "8", "-perturb"], seed_offset=500)
+        # the same with slow library calls: the asynchronous writers fall behind the main loop, so whatever the main
+        # loop does to a generation "too early" overlaps the writer's accesses
+        s_slow = owsim.run_engine(ctx, cases, binary, ["-sample", str(max(n // 2, 10)), "-options", "basic", "-workers", "8", "-perturb", "-slowio", "1500"], seed_offset=700)
+        s["evaluations"] += s_slow["evaluations"]
+        s["mismatches"] += s_slow["mismatches"]
+        s["extra"] = {"perturbed": s["extra"], "perturbed_slow_io": s_slow["extra"]}
     finally:
         os.environ.clear()
         os.environ.update(old)
